@@ -190,11 +190,18 @@ func genC07(rng *hx.Rng, tier string, w *hx.Writer) error {
 		ids := c07Ids(rng, n)
 		r := c07Rand(rng)
 		r0 := new(big.Int).Set(r)
+		// the chain the member is connected to: none, or one whose views answer "pending" /
+		// "not in the group" for every id (a member's view of the registry may lag; the
+		// submitter is a function of the event alone)
+		var chain onchain.ProxyAdapter
+		if it%3 != 0 {
+			chain = &doubles.FakeChain{PendingAll: it%3 == 1}
+		}
 		eval := func() string {
 			return hx.Catch(func() string {
 				ctx, cancel := context.WithTimeout(context.Background(), 2*time.Second)
 				defer cancel()
-				outs, errc := dosnode.VerifChoseSubmitter(ctx, nil, nil, r, ids, 2, c07Log)
+				outs, errc := dosnode.VerifChoseSubmitter(ctx, nil, chain, r, ids, 2, c07Log)
 				a, ok1 := readAll(outs[0], 2*time.Second)
 				b, ok2 := readAll(outs[1], 2*time.Second)
 				for range errc {
